@@ -13,6 +13,9 @@ def run(chk):
         for k in list(range(1, 27)) + [30, 42, 49]:
             jobs.append((k, 1, 'new', 'full'))
         jobs += [(5, 2, 'new', 'full'), (13, 3, 'plan', 'full'), (26, 2, 'plan', 'full')]
+        # the block as second block of a two-block object (first block one symbol larger: another K' when k is a table value)
+        jobs += [(10, 2, 'obj', 'full'), (12, 1, 'obj', 'full'), (18, 1, 'obj', 'full'), (11, 3, 'obj', 'full'), (26, 1, 'obj', 'full'),
+                 (101, 2, 'obj', 'cert'), (1002, 1, 'obj', 'cert')]
         cert = [10, 11, 27, 101, 250, 257, 999, 1002, 1698, 1699, 8837, 20000, 56403, 56000]
         for k in cert:
             jobs.append((k, 1, 'new', 'cert'))
@@ -35,10 +38,12 @@ def run(chk):
                 jobs.append((prev + 1, 1, 'new', 'cert'))     # maximal padding for this K'
             prev = kp
         jobs += [(19, 4, 'new', 'cert'), (300, 3, 'plan', 'cert'), (5000, 2, 'new', 'cert')]
+        jobs += [(k, 1 + k % 2, 'obj', 'full') for k in (10, 11, 12, 18, 20, 26, 32, 36, 42, 48, 49, 55, 60, 62, 69, 75, 84, 88, 91, 95, 97, 101)]
+        jobs += [(k, 1, 'obj', 'cert') for k in kps[22:477:9]]
     ok = ec.run_blocks(chk, exe, jobs, 'c04', nrep=13, nrand=4, nproc=14)
     chk.cov['evaluations'] = len(jobs)
     chk.cov['distinct_nontrivial'] = len({(ec.kprime_of(j[0]), j[3]) for j in jobs}) if ok else 0
-    chk.cov['rule'] = ('one block encoder per job (K,T,route,mode); packets checked: all K source packets + repair ESIs '
+    chk.cov['rule'] = ('one block encoder per job (K,T,route,mode) - route obj: the block is the second block of a two-block object built by Encoder::new whose first block is one symbol larger; packets checked: all K source packets + repair ESIs '
                        'K..K+12, 4 random 24-bit ESIs, 65536, 2^24-1; distinct_nontrivial = distinct (K\', oracle mode); '
                        'mode full: TLC solves the RFC system itself; mode cert: TLC certifies the implementation\'s '
                        'intermediate symbols against every LDPC/HDPC/LT relation and recomputes the packets')
